@@ -139,12 +139,13 @@ type schedule struct {
 	overlap bool
 	labels []mlabel
 	modes  map[int]int // task -> 0 Submit+receive, 1 SubmitWait, 2 ExecuteWithWorker
+	vkinds map[int]int // task -> what its body returns (see taskValue); absent = its own id
 	kind   string
 }
 
 func sample(r *Rand, p profile) schedule {
 	s := minit(p.workers)
-	sc := schedule{n: p.workers, overlap: p.overlap, modes: map[int]int{}, kind: p.kind}
+	sc := schedule{n: p.workers, overlap: p.overlap, modes: map[int]int{}, vkinds: map[int]int{}, kind: p.kind}
 	nextTask, stops, resizes := 0, p.stops, p.resizes
 	for step := 0; step < 160; step++ {
 		type cand struct {
@@ -200,6 +201,9 @@ func sample(r *Rand, p profile) schedule {
 		switch l.kind {
 		case lSubmitCall:
 			sc.modes[l.arg] = PickInt(r, 0, 0, 0, 1, 2)
+			// half of the tasks return their own id (so that a result can be attributed to its task), the others
+			// nil in its three guises and zero values - all legitimate results of an executed task
+			sc.vkinds[l.arg] = PickInt(r, vOwn, vOwn, vOwn, vOwn, vOwn, vOwn, vNil, vNil, vNilError, vNilError, vNilPtr, vZero, vEmpty, vUnit)
 			nextTask++
 		case lStopCall:
 			stops--
@@ -241,6 +245,8 @@ type corpusSpec struct {
 	name   string
 	n      int
 	labels []mlabel
+	modes  map[int]int
+	vkinds map[int]int
 }
 
 func L(kind int, arg ...int) mlabel {
@@ -267,17 +273,29 @@ func corpusSpecs(overlap bool) []corpusSpec {
 		return []corpusSpec{
 			// the schedule on which the code before commit 9607c86 left a submitter blocked for ever:
 			// one worker busy, one task queued behind it, Stop
-			{"stop-with-queued-task", 1, cat(sub3(0), []mlabel{L(lTake, 0, 0)}, sub3(1),
+			{name: "stop-with-queued-task", n: 1, labels: cat(sub3(0), []mlabel{L(lTake, 0, 0)}, sub3(1),
 				[]mlabel{L(lStopCall), L(lStopCAS), L(lStopClose), L(lFinish, 0, 0), L(lExitCtx, 0), L(lStopWait), L(lStopDrain), L(lStopDrain)})},
 			// shrink 2 -> 1 with both workers busy and the queue full: two of the four queued tasks do not fit
-			{"shrink-overflow", 2, cat(sub3(0), []mlabel{L(lTake, 0, 0)}, sub3(1), []mlabel{L(lTake, 1, 1)}, sub3(2), sub3(3), sub3(4), sub3(5),
+			{name: "shrink-overflow", n: 2, labels: cat(sub3(0), []mlabel{L(lTake, 0, 0)}, sub3(1), []mlabel{L(lTake, 1, 1)}, sub3(2), sub3(3), sub3(4), sub3(5),
 				[]mlabel{L(lRzCall, 1), L(lRzBegin), L(lRzStop), L(lRzClose), L(lFinish, 0, 0), L(lFinish, 1, 1), L(lExitCtx, 0), L(lExitCtx, 1), L(lRzWait),
 					L(lRzDrain), L(lRzDrain), L(lRzDrain), L(lRzDrain), L(lRzDrain), L(lRzSwap), L(lRzReenq), L(lRzReenq), L(lRzReenq), L(lRzReenq), L(lRzReenq)})},
+			// every entry point with tasks whose result is nil or a zero value, on an idle pool: each is accepted,
+			// executed once by a worker, and its (nil) result is the answer - it must not be run again by the caller
+			{name: "nil-results-idle-pool", n: 2, labels: cat(sub3(0), []mlabel{L(lTake, 0, 0), L(lFinish, 0, 0)}, sub3(1), []mlabel{L(lTake, 0, 1), L(lFinish, 0, 1)},
+				sub3(2), []mlabel{L(lTake, 0, 2), L(lFinish, 0, 2)}, sub3(3), []mlabel{L(lTake, 0, 3), L(lFinish, 0, 3)}, sub3(4), []mlabel{L(lTake, 0, 4), L(lFinish, 0, 4)},
+				sub3(5), []mlabel{L(lTake, 0, 5), L(lFinish, 0, 5)}, sub3(6), []mlabel{L(lTake, 0, 6), L(lFinish, 0, 6)}),
+				modes:  map[int]int{0: 2, 1: 2, 2: 2, 3: 1, 4: 0, 5: 2, 6: 2},
+				vkinds: map[int]int{0: vNil, 1: vNilError, 2: vNilPtr, 3: vNil, 4: vNilError, 5: vZero, 6: vOwn}},
+			// ExecuteWithWorker refused by a full queue and by a stopped pool: exactly one direct execution, nil results included
+			{name: "executewithworker-refused", n: 1, labels: cat(sub3(0), []mlabel{L(lTake, 0, 0)}, sub3(1), sub3(2),
+				[]mlabel{L(lSubmitCall, 3), L(lSubmitBegin, 3), L(lSubmitTimeout, 3), L(lStopCall), L(lStopCAS), L(lStopClose), L(lSubmitCall, 4), L(lSubmitBegin, 4), L(lFinish, 0, 0)}),
+				modes:  map[int]int{1: 2, 2: 2, 3: 2, 4: 2},
+				vkinds: map[int]int{1: vNil, 2: vOwn, 3: vNil, 4: vNilError}},
 			// queue full: the next Submit waits its 50 ms and is rejected
-			{"full-queue-timeout", 1, cat(sub3(0), []mlabel{L(lTake, 0, 0)}, sub3(1), sub3(2),
+			{name: "full-queue-timeout", n: 1, labels: cat(sub3(0), []mlabel{L(lTake, 0, 0)}, sub3(1), sub3(2),
 				[]mlabel{L(lSubmitCall, 3), L(lSubmitBegin, 3), L(lSubmitTimeout, 3), L(lFinish, 0, 0)})},
 			// grow 1 -> 3 with a queued task, then Stop of the restarted pool
-			{"grow-then-stop", 1, cat(sub3(0), []mlabel{L(lTake, 0, 0)}, sub3(1), sub3(2),
+			{name: "grow-then-stop", n: 1, labels: cat(sub3(0), []mlabel{L(lTake, 0, 0)}, sub3(1), sub3(2),
 				[]mlabel{L(lRzCall, 3), L(lRzBegin), L(lRzStop), L(lRzClose), L(lFinish, 0, 0), L(lExitCtx, 0), L(lRzWait), L(lRzDrain), L(lRzDrain), L(lRzDrain),
 					L(lRzSwap), L(lRzReenq), L(lRzReenq), L(lRzReenq), L(lTake, 1, 1), L(lTake, 2, 2), L(lStopCall), L(lStopCAS), L(lStopClose), L(lFinish, 1, 1), L(lFinish, 2, 2)})},
 		}
@@ -286,14 +304,14 @@ func corpusSpecs(overlap bool) []corpusSpec {
 		// Stop and Resize overlapping while a Submit is pending on a full queue.  Without resizeMu in Stop
 		// (code before the fix) Resize saw running == 0 and closed the old queue without closeMu:
 		// the pending Submit panicked with "send on closed channel".
-		{"pending-submit-stop-resize", 1, cat(sub3(0), []mlabel{L(lTake, 0, 0)}, sub3(1), sub3(2),
+		{name: "pending-submit-stop-resize", n: 1, labels: cat(sub3(0), []mlabel{L(lTake, 0, 0)}, sub3(1), sub3(2),
 			[]mlabel{L(lSubmitCall, 3), L(lSubmitBegin, 3), L(lStopCall), L(lStopCAS), L(lRzCall, 2), L(lSubmitTimeout, 3), L(lStopClose), L(lFinish, 0, 0)})},
 		// Stop waiting for a busy worker, Resize in between.  Without the lock Resize replaced queue and
 		// context under the worker, which then never exited: Stop (AbsfsNFS.Close) hung for ever.
-		{"stop-waiting-resize", 1, cat(sub3(0), []mlabel{L(lTake, 0, 0)}, sub3(1),
+		{name: "stop-waiting-resize", n: 1, labels: cat(sub3(0), []mlabel{L(lTake, 0, 0)}, sub3(1),
 			[]mlabel{L(lStopCall), L(lStopCAS), L(lStopClose), L(lRzCall, 2), L(lFinish, 0, 0)})},
 		// Resize in progress (waiting for a busy worker), Stop called meanwhile
-		{"resize-waiting-stop", 2, cat(sub3(0), []mlabel{L(lTake, 0, 0)}, sub3(1), []mlabel{L(lTake, 1, 1)}, sub3(2), sub3(3),
+		{name: "resize-waiting-stop", n: 2, labels: cat(sub3(0), []mlabel{L(lTake, 0, 0)}, sub3(1), []mlabel{L(lTake, 1, 1)}, sub3(2), sub3(3),
 			[]mlabel{L(lRzCall, 1), L(lRzBegin), L(lRzStop), L(lStopCall), L(lRzClose), L(lFinish, 0, 0), L(lFinish, 1, 1)})},
 	}
 }
@@ -301,7 +319,13 @@ func corpusSpecs(overlap bool) []corpusSpec {
 func corpus(overlap bool) []Case {
 	var out []Case
 	for i, cs := range corpusSpecs(overlap) {
-		sc := schedule{n: cs.n, overlap: overlap, labels: cs.labels, modes: map[int]int{}, kind: cs.name}
+		sc := schedule{n: cs.n, overlap: overlap, labels: cs.labels, modes: cs.modes, vkinds: cs.vkinds, kind: cs.name}
+		if sc.modes == nil {
+			sc.modes = map[int]int{}
+		}
+		if sc.vkinds == nil {
+			sc.vkinds = map[int]int{}
+		}
 		c := enact(sc, i, "quick")
 		c.Kind = cs.name
 		out = append(out, c)
@@ -320,21 +344,82 @@ const (
 	evRzRet
 )
 const (
-	resGot = iota
-	resNil
+	resGot = iota // a value arrived (Submit+receive, SubmitWait)
 	resNotExec
 	resRejected
 	resFalse
-	resDirect
+	resEww // ExecuteWithWorker returned: the value and the number of times the body ran in the caller
 	resPanic
 )
+
+// what a task body returns
+const (
+	vOwn      = iota // int 1000+id: attributable to its task
+	vNil             // untyped nil
+	vNilError        // a nil error (the same nil interface value once it travels as interface{})
+	vNilPtr          // (*int)(nil): a non-nil interface holding a nil pointer
+	vZero            // int 0
+	vEmpty           // ""
+	vUnit            // struct{}{}
+)
+
+var vkindNames = []string{"own", "nil", "nilerror", "nilptr", "zero", "empty", "unit"}
+
+func taskValue(t, vk int) interface{} {
+	switch vk {
+	case vNil:
+		return nil
+	case vNilError:
+		var e error
+		return e
+	case vNilPtr:
+		return (*int)(nil)
+	case vZero:
+		return 0
+	case vEmpty:
+		return ""
+	case vUnit:
+		return struct{}{}
+	}
+	return 1000 + t
+}
+
+// expectedVal / classify render a task's own value resp. a value that came back as a Coq term of type Corr.C20.val
+func expectedVal(t, vk int) string {
+	return classify(taskValue(t, vk))
+}
+func classify(v interface{}) string {
+	switch x := v.(type) {
+	case nil:
+		return "VNil"
+	case *int:
+		if x == nil {
+			return "VNilPtr"
+		}
+	case int:
+		if x == 0 {
+			return "VZero"
+		}
+		if x >= 1000 {
+			return fmt.Sprintf("(VOwn %d)", x-1000)
+		}
+	case string:
+		if x == "" {
+			return "VEmpty"
+		}
+	case struct{}:
+		return "VUnit"
+	}
+	return "VOther"
+}
 
 type rawEv struct {
 	kind int
 	t    int
-	res  int  // evRes: answer kind
-	val  int  // evRes/resGot: the value; evStart: bodies executing at the start
-	acc  bool // evRet
+	res  int    // evRes: answer kind
+	val  int    // evStart: bodies executing at the start; evRes/resEww: executions of the body in the caller
+	cv   string // evRes: the value that came back, as a Coq term
+	acc  bool   // evRet
 }
 
 type run struct {
@@ -344,7 +429,9 @@ type run struct {
 	gates   map[int]chan struct{}
 	cur     int32
 	subGoid sync.Map // task -> goroutine id of its submitter (ExecuteWithWorker mode)
-	direct  sync.Map // task -> true when the body ran in the submitter itself
+	vkinds  map[int]int
+	poolN   []int32 // per task: executions of its body on a pool goroutine
+	directN []int32 // per task: executions of its body on the goroutine that called ExecuteWithWorker
 
 	// the driver's view = what has been logged so far
 	log      []string // Coq terms of type Corr.C20.ev
@@ -378,29 +465,25 @@ func (r *run) body(t int) func() interface{} {
 	return func() interface{} {
 		if g, ok := r.subGoid.Load(t); ok && g.(int64) == goid() {
 			// ExecuteWithWorker fell back to running the task in the caller: not a pool execution
-			r.direct.Store(t, true)
-			return t
+			atomic.AddInt32(&r.directN[t], 1)
+			return taskValue(t, r.vkinds[t])
 		}
+		atomic.AddInt32(&r.poolN[t], 1)
 		k := atomic.AddInt32(&r.cur, 1)
 		r.evc <- rawEv{kind: evStart, t: t, val: int(k)}
 		<-gate
 		atomic.AddInt32(&r.cur, -1)
 		r.evc <- rawEv{kind: evLeaving, t: t}
-		return t
+		return taskValue(t, r.vkinds[t])
 	}
 }
 
+// answer: what `v, ok := <-ch` / SubmitWait gave; nil is a value like any other
 func answer(t int, v interface{}, ok bool, notOK int) rawEv {
-	switch {
-	case !ok:
+	if !ok {
 		return rawEv{kind: evRes, t: t, res: notOK}
-	case v == nil:
-		return rawEv{kind: evRes, t: t, res: resNil}
 	}
-	if i, isInt := v.(int); isInt {
-		return rawEv{kind: evRes, t: t, res: resGot, val: i}
-	}
-	return rawEv{kind: evRes, t: t, res: resNil}
+	return rawEv{kind: evRes, t: t, res: resGot, cv: classify(v)}
 }
 
 func (r *run) submit(t, mode int) {
@@ -427,16 +510,12 @@ func (r *run) submit(t, mode int) {
 		default:
 			r.subGoid.Store(t, goid())
 			v := r.srv.ExecuteWithWorker(body)
-			if _, d := r.direct.Load(t); d {
-				r.evc <- rawEv{kind: evRes, t: t, res: resDirect}
-			} else {
-				r.evc <- answer(t, v, true, resFalse)
-			}
+			r.evc <- rawEv{kind: evRes, t: t, res: resEww, cv: classify(v), val: int(atomic.LoadInt32(&r.directN[t]))}
 		}
 	}()
 }
 
-var resNames = []string{"RGot", "RNil", "RNotExec", "RRejected", "RFalse", "RDirect", "RPanic"}
+var resNames = []string{"RGot", "RNotExec", "RRejected", "RFalse", "REww", "RPanic"}
 
 func (r *run) add(coq, txt string) {
 	r.log = append(r.log, coq)
@@ -461,12 +540,25 @@ func (r *run) note(e rawEv) {
 		r.add(fmt.Sprintf("ERet %d %s", e.t, CBool(e.acc)), fmt.Sprintf("submit(%d)=%v", e.t, map[bool]string{true: "accepted", false: "nil"}[e.acc]))
 	case evRes:
 		r.resolved[e.t] = true
-		if e.res == resGot {
-			r.add(fmt.Sprintf("ERes %d (RGot %d)", e.t, e.val), fmt.Sprintf("result(%d)=%d", e.t, e.val))
-		} else {
+		show := strings.Trim(e.cv, "()")
+		switch e.res {
+		case resGot:
+			r.add(fmt.Sprintf("ERes %d (RGot %s)", e.t, e.cv), fmt.Sprintf("result(%d)=%s", e.t, show))
+			r.tags["res_got"]++
+		case resEww:
+			r.add(fmt.Sprintf("ERes %d (REww %s %d)", e.t, e.cv, e.val), fmt.Sprintf("executewithworker(%d)=%s|%d direct", e.t, show, e.val))
+			if e.val == 0 {
+				r.tags["res_got"]++
+			} else {
+				r.tags["res_direct"]++
+			}
+		default:
 			r.add(fmt.Sprintf("ERes %d %s", e.t, resNames[e.res]), fmt.Sprintf("result(%d)=%s", e.t, resNames[e.res][1:]))
+			r.tags["res_"+strings.ToLower(resNames[e.res][1:])]++
 		}
-		r.tags["res_"+strings.ToLower(resNames[e.res][1:])]++
+		if (e.res == resGot || e.res == resEww) && e.cv == "VNil" {
+			r.tags["res_value_nil"]++
+		}
 	case evStopRet:
 		r.stopOut--
 		r.add("EStopRet", "Stop-returned")
@@ -574,11 +666,18 @@ func enact(sc schedule, idx int, tier string) Case {
 	}
 	r.srv = absnfs.VerifNewPoolServer(sc.n)
 	r.pool = r.srv.VerifWorkerPool()
+	maxTask := -1
 	for _, l := range sc.labels {
 		if l.kind == lSubmitCall {
 			r.gates[l.arg] = make(chan struct{})
+			if l.arg > maxTask {
+				maxTask = l.arg
+			}
 		}
 	}
+	r.vkinds = sc.vkinds
+	r.poolN = make([]int32, maxTask+1)
+	r.directN = make([]int32, maxTask+1)
 	step := 300 * time.Microsecond   // let goroutines move after an action
 	expect := 60 * time.Millisecond  // for an internal step the sampled trace expects
 	timeout := 150 * time.Millisecond // a 50 ms Submit timer, with slack
@@ -601,7 +700,8 @@ func enact(sc schedule, idx int, tier string) Case {
 			}
 			r.modeOf[l.arg] = mode
 			r.called = append(r.called, l.arg)
-			r.add(fmt.Sprintf("ECall %d", l.arg), fmt.Sprintf("call(%d,%s)", l.arg, []string{"Submit", "SubmitWait", "ExecuteWithWorker"}[mode]))
+			r.add(fmt.Sprintf("ECall %d", l.arg), fmt.Sprintf("call(%d,%s,returns %s)", l.arg, []string{"Submit", "SubmitWait", "ExecuteWithWorker"}[mode], vkindNames[sc.vkinds[l.arg]]))
+			r.tags["value_"+vkindNames[sc.vkinds[l.arg]]]++
 			r.tags["submits"]++
 			r.tags[[]string{"mode_submit", "mode_submitwait", "mode_executewithworker"}[mode]]++
 			r.submit(l.arg, mode)
@@ -750,6 +850,19 @@ func enact(sc schedule, idx int, tier string) Case {
 		}
 	}
 	r.add("EQuiesce "+CList(blocked), "quiescent(blocked="+strings.Join(blocked, ",")+")")
+	// executions of every task body counted on the real code, read at quiescence (before the clean-up below)
+	var vals, counts, ctxt []string
+	for _, t := range r.called {
+		pn, dn := atomic.LoadInt32(&r.poolN[t]), atomic.LoadInt32(&r.directN[t])
+		vals = append(vals, CPair(strconv.Itoa(t), expectedVal(t, sc.vkinds[t])))
+		counts = append(counts, CPair(strconv.Itoa(t), CPair(strconv.Itoa(int(pn)), strconv.Itoa(int(dn)))))
+		ctxt = append(ctxt, fmt.Sprintf("%d:%d+%d", t, pn, dn))
+		if pn+dn > 1 {
+			r.tags["executed_more_than_once"]++
+		}
+		r.tags["direct_executions"] += int(dn)
+	}
+	r.txt = append(r.txt, "executions(task:pool+direct)="+strings.Join(ctxt, ","))
 	r.tags["blocked"] += len(blocked)
 	if r.stopOut > 0 {
 		r.tags["stop_not_returned"]++
@@ -796,7 +909,7 @@ func enact(sc schedule, idx int, tier string) Case {
 	for _, l := range sc.labels {
 		sl = append(sl, l.String())
 	}
-	coq := fmt.Sprintf("({| c_n := %d; c_evs := %s |})%%nat", sc.n, CList(r.log))
+	coq := fmt.Sprintf("({| c_n := %d; c_vals := %s; c_evs := %s; c_counts := %s |})%%nat", sc.n, CList(vals), CList(r.log), CList(counts))
 	return Case{Index: idx, Kind: sc.kind, Coq: coq, Tags: r.tags,
 		Text: fmt.Sprintf("workers=%d observed: %s || sampled: %s", sc.n, strings.Join(r.txt, " "), strings.Join(sl, ","))}
 }
